@@ -22,10 +22,6 @@ from props import C01 as H
 KLASS = "ragged-below-container-ndim"
 
 
-def depth2_values(maxlen, base=0):
-    return [_shift(v, base) for v in SP.nested_lists(2, maxlen)]
-
-
 def _shift(v, base):
     if isinstance(v, list):
         return [_shift(x, base) for x in v]
@@ -69,7 +65,7 @@ def _w_alone(task):
     (indices into the list of depth-1 values), or an explicit list of index tuples"""
     depth, maxlen, spec = task
     subs = [None] if depth == 1 else list(SP.nested_lists(depth - 1, maxlen))
-    n_cases, n_nontrivial, fails, samples = 0, 0, [], []
+    fails = []
 
     def values():
         if spec[0] == "explicit":
